@@ -14,6 +14,16 @@ CHECKS = {
         "ref": "DESIGN.md 5/C08", "technique": _L,
         "note": "Schedules are sampled beyond the first 12 bytes (all 2^11 compositions only in thorough); outcome = success/error + format/dims/depth + ICC length and hash.",
     },
+    "C16": {
+        "text": "IccHeader.tla transcribes ICC.1:2010 table 17 as (offset, length) pairs; TLC first checks the table itself (it partitions the 128 bytes, and each of the 1024 header bits flipped in an all-zeros and an all-ones header changes exactly the exposed fields Influence() names). The real reader is then run on walking ones/zeros over all 1024 bit positions of three base headers, every field all-ones/all-zeros alone, every valid date-time component, flag combinations with noise in the other 30 bits, seeded random headers with and without the signature, and Version.String on all 65,536 version byte pairs; TLC computes Expected(hdr) from the recorded header bytes and accepts or rejects every observation.",
+        "ref": "DESIGN.md 5/C16", "technique": "TLA+ transcription of the ICC header layout (role B) + TLC-checked design lemma + trace validation of real ReadProfile observations",
+        "note": "Dates are compared only when all six components are valid; a one-tag table follows the header so that C16 is judged independently of the tag table reader.",
+    },
+    "C17": {
+        "text": "IccTags.tla defines the grammar of well-formed profiles (tag table in any order, data blocks in any order, shared, padded; v2 textDescription or mluc with records placed in table order, reversed, shared, gapped or overlapping) and the contract AllowedDesc; MC_IccTags checks the impl-shaped Description evaluation against it (the as-found cursor-reading and English-pick designs are rejected) and prints every profile of the bounded grammar; each is built into real bytes and read directly and through meta.Data.ICCProfile() of PNG/JPEG/WebP containers; a seeded generator scales the same grammar to 64 tags, 40 records and 2000-unit strings; TLC judges every observation.",
+        "ref": "DESIGN.md 5/C17", "technique": "TLA+ grammar/contract + impl-shaped model checked by TLC; generate-and-replay; trace validation",
+        "note": "Text contents are identities named by the harness (prefix comparison for overlapping placements); when every English string is empty the contract tolerates falling back to another record.",
+    },
     "C18": {
         "text": "TLC proves pulled <= Need + BUF for one loader and for the chain of three under all schedules (ReadAheadBounded, ChainReadAhead). Real loaders are run on well-formed generated files with 1 MiB and 64 MiB virtual pixel bodies (and on the same files truncated just after the needed point) under 4 segmentations; TLC judges pulled <= Needed(layout) + 64 KiB and equality of the truncated reload (NoOverRead).",
         "ref": "DESIGN.md 5/C18", "technique": _L,
